@@ -45,18 +45,34 @@ type Case struct {
 	Lo       int    `json:"expected_line_min"`
 	Hi       int    `json:"expected_line_max"`
 	MaxLine  int    `json:"lines_of_input"`
+	EOL      string `json:"line_ends"` // lf | crlf | cr
 }
 
 func maxLine(text string) int { return 1 + strings.Count(text, "\n") }
+
+// withEOL rewrites the line ends of an LF text.
+func withEOL(text, eol string) string {
+	switch eol {
+	case "crlf":
+		return strings.Replace(text, "\n", "\r\n", -1)
+	case "cr":
+		return strings.Replace(text, "\n", "\r", -1)
+	}
+	return text
+}
+
+var eols = []string{"lf", "crlf", "cr"}
 
 // buildCases inserts every fault at every line of every generated file.
 func buildCases(ctx *core.Ctx) (valid []c05.Input, cases []Case) {
 	files := c05.GeneratedFiles(ctx.Pick(120, 1200), ctx.Seed)
 	for fi, vf := range files {
 		name := fmt.Sprintf("pkg%d/file_%d.soy", fi%7, fi)
-		v := c05.FileInput("c19/valid", vf.Text())
-		v.Name = name
-		valid = append(valid, v)
+		for _, eol := range eols {
+			v := c05.FileInput("c19/valid-"+eol, withEOL(vf.Text(), eol))
+			v.Name = name
+			valid = append(valid, v)
+		}
 		n := len(vf.Lines)
 		for _, f := range faults {
 			for k := 1; k <= n+1; k++ { // the fault becomes line k
@@ -71,11 +87,14 @@ func buildCases(ctx *core.Ctx) (valid []c05.Input, cases []Case) {
 				if f.Kind == "unterminated-string" && strings.Contains(rest, "'") {
 					continue
 				}
-				c := Case{Name: name, Text: text, Fault: f.Kind, FaultSrc: f.Line, Line: k, Lo: k, Hi: k, MaxLine: maxLine(text)}
+				c := Case{Name: name, Text: text, Fault: f.Kind, FaultSrc: f.Line, Line: k, Lo: k, Hi: k, MaxLine: maxLine(text), EOL: "lf"}
 				if f.Open {
 					c.Hi = c.MaxLine
 				}
-				cases = append(cases, c)
+				for _, eol := range eols {
+					c.EOL, c.Text = eol, withEOL(text, eol)
+					cases = append(cases, c)
+				}
 			}
 		}
 		// the closing {/template} missing: the template tag's line .. end
@@ -86,7 +105,9 @@ func buildCases(ctx *core.Ctx) (valid []c05.Input, cases []Case) {
 			}
 		}
 		text := strings.Join(vf.Lines[:n-1], "\n") + "\n"
-		cases = append(cases, Case{Name: name, Text: text, Fault: "missing-close-template", FaultSrc: "", Line: tl, Lo: tl, Hi: maxLine(text), MaxLine: maxLine(text)})
+		for _, eol := range eols {
+			cases = append(cases, Case{Name: name, Text: withEOL(text, eol), Fault: "missing-close-template", FaultSrc: "", Line: tl, Lo: tl, Hi: maxLine(text), MaxLine: maxLine(text), EOL: eol})
+		}
 	}
 	return
 }
@@ -105,6 +126,14 @@ func judgeCase(c *Case, r *c05.Result) (feature, what string) {
 			f = "empty"
 		}
 		return "fault=" + c.Fault + ":file-name-" + f, fmt.Sprintf("File() = %q, want %q (Line() = %d, fault on line %d): %s", r.File, c.Name, r.Line, c.Line, r.Err)
+	}
+	// Line numbers are 1 + the number of line feeds before the position (Lo, Hi
+	// and MaxLine were computed on the LF text, CRLF does not change them).
+	// Bare CR: the file has no LF, so under the LF reading everything is on
+	// line 1, under the "CR ends a line" reading the LF numbers apply: only
+	// what holds under both readings is judged, i.e. line 1 is accepted too.
+	if c.EOL == "cr" && r.Line == 1 && strings.Contains(r.Err, c.Name) {
+		return "", ""
 	}
 	if r.Line < 1 || r.Line > c.MaxLine {
 		return "fault=" + c.Fault + ":line-outside-input", fmt.Sprintf("Line() = %d, input has %d lines: %s", r.Line, c.MaxLine, r.Err)
@@ -160,22 +189,33 @@ func runParseHalf(ctx *core.Ctx) {
 	pool := c05.NewPool(16)
 	pool.SeqLen = 300
 	results := pool.Run(inputs)
-	// the generated files must be valid (else the generator is wrong: tool trouble)
+	// the generated files must be valid (else the generator is wrong: tool
+	// trouble); a CRLF / CR variant that is not accepted is only skipped
 	bad := 0
+	skipEOL := map[string]bool{}
 	for i := range valid {
 		if results[i].Outcome != "tree" {
-			bad++
-			if bad <= 3 {
-				ctx.ToolError("generated file is not valid Soy: %s: %s", clip(string(valid[i].Text), 200), results[i].Err)
+			if strings.HasSuffix(valid[i].Family, "-lf") {
+				bad++
+				if bad <= 3 {
+					ctx.ToolError("generated file is not valid Soy: %s: %s", clip(string(valid[i].Text), 200), results[i].Err)
+				}
+			} else {
+				skipEOL[valid[i].Name+"|"+strings.TrimPrefix(valid[i].Family, "c19/valid-")] = true
 			}
 		}
 	}
 	judged, accepted, notJudged := 0, 0, 0
 	perFault := map[string]int{}
+	perEOL := map[string]int{}
 	viol := map[string]int{}
 	for ci := range cases {
 		c := &cases[ci]
 		r := &results[len(valid)+ci]
+		if skipEOL[c.Name+"|"+c.EOL] {
+			notJudged++
+			continue
+		}
 		switch r.Outcome {
 		case "error":
 		case "tree":
@@ -187,6 +227,7 @@ func runParseHalf(ctx *core.Ctx) {
 		}
 		judged++
 		perFault[c.Fault]++
+		perEOL[c.EOL]++
 		ctx.Distinct(c.Fault + "|" + strconv.Itoa(c.Line) + "|" + c.Text)
 		if ci%997 == 0 {
 			ctx.Sample(map[string]interface{}{"fault": c.Fault, "line": c.Line, "file": c.Name, "reported_line": r.Line, "err": clip(r.Err, 160)})
@@ -201,7 +242,7 @@ func runParseHalf(ctx *core.Ctx) {
 	ctx.AddTraces(int64(judged))
 	ctx.Extra["parse_half"] = map[string]interface{}{
 		"valid_files": len(valid), "cases": len(cases), "judged": judged, "faulty_file_accepted(not judged)": accepted,
-		"did_not_return_or_panicked(C05, not judged)": notJudged, "judged_per_fault": perFault, "violations_per_signature": viol,
+		"did_not_return_or_panicked(C05, not judged)": notJudged, "judged_per_fault": perFault, "judged_per_line_end": perEOL, "valid_variants_rejected(skipped)": len(skipEOL), "violations_per_signature": viol,
 	}
 	if pool.Lost > 0 {
 		ctx.ToolError("%d inputs were lost by their worker", pool.Lost)
